@@ -296,8 +296,13 @@ def rulesets(ctx, layer):
                     base["pattern"] = rng.choice(["foo", "me", "f*", "bar", "*", "o"])
                 elif kind == "room":
                     rid = rng.choice(rooms)
+                    if rng.random() < 0.25:
+                        # not identical to any room ID: other case, glob characters
+                        rid = rng.choice(["!R:x.org", "!*:x.org", "!?:x.org", "!r:X.ORG", "!r:x.or?", "!t:x.org", "!*"])
                 else:
                     rid = rng.choice(users)
+                    if rng.random() < 0.25:
+                        rid = rng.choice(["@A:x.org", "@*:x.org", "@?:x.org", "@a:X.org", "@c:x.org"])
                 if rid in used:
                     continue
                 used.add(rid)
@@ -342,6 +347,11 @@ def rulesets(ctx, layer):
         got_t = (got["kind"], got["rule_id"]) if got else None
         if strict != lenient:
             rep.count("grey_boundary_reading")
+            continue
+        if ref.get_match(rs, ev, c, True, id_glob=True) != strict:
+            # a room / sender rule whose id is not identical to the room / user id but matches it as
+            # a glob: literal and implicit-condition readings of the spec differ, not judged
+            rep.count("grey_rule_id_reading")
             continue
         rep.judged()
         if strict is not None:
